@@ -167,10 +167,19 @@ def model_decode(model, cases):
             model.ask_many([f'decodeapi_full {1 if s else 0} ' + ' '.join(hx(p) for p in parts) for s, parts in cases])]
 
 
+def srepr(v):
+    """repr that survives integers beyond the 4300-digit str() limit"""
+    if isinstance(v, int) and not isinstance(v, bool) and v.bit_length() > 256:
+        return f'<int of {v.bit_length()} bits, 0x{v >> (v.bit_length() - 32):x}...>'
+    if isinstance(v, (tuple, list)):
+        return '(' + ', '.join(srepr(x) for x in v) + ')'
+    return repr(v)[:300]
+
+
 def first_diff(a, b, names):
     for n, x, y in zip(names, a, b):
         if x != y:
-            return f'{n}: impl {x!r} model {y!r}'
+            return f'{n}: impl {srepr(x)} model {srepr(y)}'
     return 'tuples differ in length'
 
 
@@ -189,12 +198,17 @@ def diff_sentence(impl, model):
     return first_diff(impl, model, AIS_NAMES if impl[0] == 'AIS' else GH_NAMES)
 
 
+def short_outcome(x):
+    """('Raise', name) | ('Ok', sentence kind): printable whatever the attribute values are"""
+    return ('Raise', x[1]) if x[0] == 'Raise' else ('Ok', x[1][0])
+
+
 def diff_produce(impl, model):
     """None when the outcome classes agree (delivered attributes | exception name)"""
     if impl[0] == 'Raise' or model[0] == 'Raise':
         if impl[0] == model[0] and impl[1] == model[1]:
             return None
-        return f'outcome: impl {impl[:2]} model {model[:2]}'
+        return f'outcome: impl {short_outcome(impl)} model {short_outcome(model)}'
     return diff_sentence(impl[1], model[1])
 
 
@@ -202,7 +216,7 @@ def diff_decode(impl, model):
     if impl[0] == 'Raise' or model[0] == 'Raise':
         if impl[0] == model[0] and impl[1] == model[1]:
             return None
-        return f'outcome: impl {impl[:2]} model {model[:2]}'
+        return f'outcome: impl {short_outcome(impl)} model {short_outcome(model)}'
     d = diff_sentence(impl[1], model[1])
     if d:
         return 'sentence ' + d
